@@ -121,7 +121,8 @@ type EmbedOuter struct {
 
 // allBridged lists every bridged kind of the bridge family.
 var allBridged = []string{"struct", "map", "slice", "array", "nmap", "anyslice", "ptrslice", "funcslice", "nilmap", "nilslice", "structval", "embednil",
-	"ifacemap", "structmap", "nilfunc", "funcstruct", "nilptr", "structslice", "mapslice"}
+	"ifacemap", "structmap", "nilfunc", "funcstruct", "nilptr", "structslice", "mapslice",
+	"stale_ptr_field", "stale_iface_field", "stale_slice_elem", "stale_map_value", "stale_slice", "stale_map"}
 
 // quickPairReceivers: the receivers of the arity-2 product in the quick tier.
 var quickPairReceivers = map[string]bool{"undefined": true, "0": true, "str-abc": true, "str-u16": true, "object": true, "array": true, "function": true,
@@ -206,11 +207,41 @@ func ref(arr string, ks []kind, i int) string {
 // installBridged sets fresh Go values for every bridged kind the case uses.
 func installBridged(vm *otto.Otto, used map[string]bool) error {
 	for b := range used {
+		if src, ok := staleAliases[b]; ok {
+			// a stale alias: a script keeps the wrapper of a member of a bridged
+			// container after the container dropped the member
+			if err := vm.Set(bridgedName(b)+"_owner", &StaleOwner{P: &EmbedInner{X: 1}, I: &EmbedInner{X: 2}, S: []*EmbedInner{{X: 3}}, M: map[string]*EmbedInner{"k": {X: 4}}}); err != nil {
+				return err
+			}
+			if _, err := vm.Run(strings.ReplaceAll(src, "%O", bridgedName(b)+"_owner") + "; var " + bridgedName(b) + " = __alias;"); err != nil {
+				return err
+			}
+			continue
+		}
 		if err := vm.Set(bridgedName(b), freshBridged(b)); err != nil {
 			return err
 		}
 	}
 	return nil
+}
+
+// StaleOwner holds members that a script aliases and then removes.
+type StaleOwner struct {
+	P *EmbedInner
+	I interface{}
+	S []*EmbedInner
+	M map[string]*EmbedInner
+}
+
+// staleAliases: bridged kinds that are aliases (__alias) of a member of %O taken
+// before the member was dropped.
+var staleAliases = map[string]string{
+	"stale_ptr_field":   `var __alias = %O.P; try { %O.P = null } catch (e) {}`,
+	"stale_iface_field": `var __alias = %O.I; try { %O.I = null } catch (e) {}`,
+	"stale_slice_elem":  `var __alias = %O.S[0]; try { %O.S[0] = null } catch (e) {} try { %O.S.length = 0 } catch (e) {}`,
+	"stale_map_value":   `var __alias = %O.M.k; try { delete %O.M.k } catch (e) {}`,
+	"stale_slice":       `var __alias = %O.S; try { %O.S = null } catch (e) {} try { %O.S = [] } catch (e) {}`,
+	"stale_map":         `var __alias = %O.M; try { %O.M = null } catch (e) {} try { %O.M = {} } catch (e) {}`,
 }
 
 func kindArraySource(name string, ks []kind) string {
